@@ -51,6 +51,9 @@ pub enum Step {
     FgSleep(u64),
     Wait,
     JobsQuery,
+    /// a subshell-like context that launches its own jobs and waits for them:
+    /// `( J.. & wait; probe wgN @eff.txt )` or `gN=$( ... )`
+    Group { jobs: Vec<usize>, cmdsubst: bool },
 }
 
 #[derive(Clone, Debug, Serialize, Deserialize)]
@@ -82,6 +85,7 @@ pub fn render(case: &Case) -> String {
     }
     let mut fgn = 0;
     let mut waitn = 0;
+    let mut groupn = 0;
     for st in &case.steps {
         match st {
             Step::Launch(k) => {
@@ -113,6 +117,20 @@ pub fn render(case: &Case) -> String {
                 s.push_str(&format!("wait\nprobe w{waitn} @eff.txt\n"));
             }
             Step::JobsQuery => s.push_str("jobs >&2\nprobe jq\n"),
+            Step::Group { jobs, cmdsubst } => {
+                groupn += 1;
+                let mut body = String::new();
+                for k in jobs {
+                    let j = &case.jobs[*k];
+                    body.push_str(&format!("{{ {} }} &\n", job_body(*k, j)));
+                }
+                body.push_str(&format!("wait\nprobe wg{groupn} @eff.txt\n"));
+                if *cmdsubst {
+                    s.push_str(&format!("g{groupn}=$(\n{body})\n"));
+                } else {
+                    s.push_str(&format!("(\n{body})\n"));
+                }
+            }
         }
     }
     s.push_str("probe end\n");
@@ -189,6 +207,24 @@ impl C17 {
         while launched < nj {
             steps.push(Step::Launch(launched));
             launched += 1;
+        }
+        // sometimes move the last one or two launches into a subshell-like group of their own
+        if nj >= 2 && rng.below(4) == 0 {
+            let take = rng.range(1, 2) as usize;
+            let mut grouped = vec![];
+            for _ in 0..take {
+                if let Some(pos) = steps.iter().rposition(|s| matches!(s, Step::Launch(_))) {
+                    if let Step::Launch(k) = steps.remove(pos) {
+                        grouped.push(k);
+                    }
+                }
+            }
+            grouped.reverse();
+            for k in &grouped {
+                jobs[*k].site = Site::Top;
+                jobs[*k].kind = JobKind::Brace;
+            }
+            steps.push(Step::Group { jobs: grouped, cmdsubst: rng.below(2) == 0 });
         }
         if rng.below(2) == 0 {
             steps.push(Step::Fg);
@@ -275,6 +311,7 @@ pub fn judge(case: &Case) -> Verdict {
     let mut done_seq: Vec<Vec<u64>> = vec![vec![]; case.jobs.len()];
     let mut fg_tags: Vec<(String, u64)> = vec![];
     let mut waits: Vec<(u64, String)> = vec![];
+    let mut groups: Vec<(u64, String)> = vec![];
     let mut end_seen = false;
     for e in &r.events {
         if let EventKind::Probe { tag, jobs, extra, depth, .. } = &e.kind {
@@ -288,6 +325,8 @@ pub fn judge(case: &Case) -> Verdict {
                 }
             } else if tag.starts_with("fg") {
                 fg_tags.push((tag.clone(), e.seq));
+            } else if tag.starts_with("wg") {
+                groups.push((e.seq, extra.first().cloned().unwrap_or_default()));
             } else if tag.starts_with('w') {
                 waits.push((e.seq, extra.first().cloned().unwrap_or_default()));
             } else if tag == "end" {
@@ -318,8 +357,28 @@ pub fn judge(case: &Case) -> Verdict {
     // which jobs were launched before each wait (program order)
     let mut launched: Vec<usize> = vec![];
     let mut wait_idx = 0;
+    let mut group_idx = 0;
     for st in &case.steps {
         match st {
+            Step::Group { jobs, .. } => {
+                let Some((gseq, file)) = groups.get(group_idx) else {
+                    v.violation = Some(viol("C17/foreground/lost", format!("probe after the wait of group #{group_idx} missing; stderr={:?} script={script:?}", String::from_utf8_lossy(&r.err)), None));
+                    return v;
+                };
+                group_idx += 1;
+                for k in jobs {
+                    if !done_seq[*k].first().is_some_and(|d| d < gseq) {
+                        let class = if any_task_error { "C17/wait-early/job-error" } else { "C17/wait-early" };
+                        let shape = if any_task_error { Some("wait-returns-early-after-job-task-error") } else { None };
+                        v.violation = Some(viol(class, format!("the wait inside group #{group_idx} returned (seq {gseq}) before its job {k} was done ({:?}); script={script:?}", done_seq[*k]), shape));
+                        return v;
+                    }
+                    if file.lines().filter(|l| *l == k.to_string()).count() != 1 {
+                        v.violation = Some(viol("C17/effects-not-visible", format!("after the wait inside group #{group_idx} eff.txt={file:?} lacks job {k}; script={script:?}"), None));
+                        return v;
+                    }
+                }
+            }
             Step::Launch(k) => launched.push(*k),
             Step::Wait => {
                 let Some((wseq, file)) = waits.get(wait_idx) else {
@@ -415,6 +474,10 @@ impl Check for C17 {
                 .filter_map(|s| match s {
                     Step::Launch(j) if j == k => None,
                     Step::Launch(j) if j > k => Some(Step::Launch(j - 1)),
+                    Step::Group { jobs, cmdsubst } => {
+                        let js: Vec<usize> = jobs.into_iter().filter(|j| *j != k).map(|j| if j > k { j - 1 } else { j }).collect();
+                        if js.is_empty() { None } else { Some(Step::Group { jobs: js, cmdsubst }) }
+                    }
                     s => Some(s),
                 })
                 .collect();
